@@ -1,317 +1,96 @@
-(** Model of parser.ParseFrugal (compiler/parser/parser.go:49-110) over an abstract file system:
-    name derivation, circular-include detection, include resolution relative to the including
-    file's directory, validation (types.go:973-1307) and the sorting of scopes.
-    The cache of parseFrugal is not modelled: parsing is a function of the file contents, so a
-    cache hit returns exactly what re-parsing returns (and the circular-include check runs before
-    the cache lookup).  Paths are relative to the directory of the root file and must not climb
-    above it.  Executable definitions only. *)
+(** Model of parser.ParseFrugal (compiler/parser/parser.go:49-110) over an abstract file system of
+    program TEXTS, as the C10 judge replays it: ok (with the tree) / error / panic.
+
+    There is ONE transcription of [Frugal.validate] and of [parseFrugal] in this tree:
+    [cvalidate] / [cparse] of Model/CompilerValidate.v (every diagnostic byte for byte, fuel for the
+    loops without a syntactic bound; C11).  The definitions here are thin views of it:
+
+      [validate f incs]        = [cvalidate (validate_fuel f incs) f incs] with the diagnostic text
+                                 forgotten (VOk iff ROk, VErr iff RErr _, VPanic iff RPanic,
+                                 VFuel iff RFuel);
+      [parse_program fs root]  = [cparse_program] on the file system in which every text has been
+                                 replaced by what the PEG parser ([parse_idl], Model/Parser.v) makes
+                                 of it, with the diagnostic text forgotten.
+
+    Out-of-fuel is kept apart from error ([VFuel], [FFuel]; the judge counts it as a mismatch, never
+    as agreement); Proofs/ParserFilesProofs.v shows it does not arise on file systems whose names
+    are what the grammar can produce.  A text on which the PEG interpreter itself gives no verdict
+    ([PWeird], [PNoFuel]: Proofs/ParserProofs.v shows the second never happens) makes the whole
+    program [FFuel].  The cache of parseFrugal is not modelled: parsing is a function of the file
+    contents, so a cache hit returns exactly what re-parsing returns (and the circular-include
+    check runs before the cache lookup).  Paths are relative to the directory of the root file and
+    must not climb above it.  Executable definitions only. *)
 From Coq Require Import ZArith List Bool.
 From FV Require Import Model.Peg Model.ParserStrings Model.ParserAst Model.ParserActions Model.Parser.
+From FV Require Export Model.ParserFsys.
+From FV Require Model.CompilerTotal Model.CompilerValidate.
 Import ListNotations.
 Open Scope Z_scope.
 
-(** ** paths as lists of components *)
-Fixpoint split_on (c : Z) (s : bytes) (cur : bytes) : list bytes :=
-  match s with
-  | [] => [rev cur]
-  | x :: t => if x =? c then rev cur :: split_on c t [] else split_on c t (x :: cur)
-  end.
-
-Definition dotdot : bytes := [46; 46].
-Definition dot : bytes := [46].
-
-(** filepath.Clean on a relative path (components already split): "" and "." vanish, ".." pops *)
-Fixpoint clean_rev (comps : list bytes) (acc : list bytes) : list bytes :=
-  match comps with
-  | [] => acc
-  | c :: t =>
-    if beqb c [] || beqb c dot then clean_rev t acc
-    else if beqb c dotdot then
-      match acc with
-      | p :: acc' => if beqb p dotdot then clean_rev t (c :: acc) else clean_rev t acc'
-      | [] => clean_rev t [c]
-      end
-    else clean_rev t (c :: acc)
-  end.
-Definition clean (comps : list bytes) : list bytes := rev (clean_rev comps []).
-
-Definition path := list bytes.   (* cleaned components *)
-Fixpoint path_eqb (a b : path) : bool :=
-  match a, b with
-  | [], [] => true
-  | x :: a', y :: b' => beqb x y && path_eqb a' b'
-  | _, _ => false
-  end.
-
-Definition fsys := list (path * bytes).
-Fixpoint fs_get (fs : fsys) (p : path) : option bytes :=
-  match fs with
-  | [] => None
-  | (q, c) :: t => if path_eqb q p then Some c else fs_get t p
-  end.
-
 (** ** validate *)
-Definition lower_first (s : bytes) : bytes :=
-  match s with
-  | c :: t => (if (65 <=? c) && (c <=? 90) then c + 32 else c) :: t
-  | [] => []
+Inductive vres := VOk | VErr | VPanic | VFuel.
+Definition vres_of (r : CompilerValidate.vr) : vres :=
+  match r with
+  | CompilerValidate.ROk => VOk
+  | CompilerValidate.RErr _ => VErr
+  | CompilerValidate.RPanic => VPanic
+  | CompilerValidate.RFuel => VFuel
   end.
-
-Fixpoint has_dup (l : list bytes) : bool :=
-  match l with
-  | [] => false
-  | x :: t => existsb (beqb x) t || has_dup t
-  end.
-Fixpoint has_dup_z (l : list Z) : bool :=
-  match l with
-  | [] => false
-  | x :: t => existsb (Z.eqb x) t || has_dup_z t
-  end.
-
-Definition s_bool := [98; 111; 111; 108]. Definition s_byte := [98; 121; 116; 101].
-Definition s_i8 := [105; 56]. Definition s_i16 := [105; 49; 54]. Definition s_i32 := [105; 51; 50].
-Definition s_i64 := [105; 54; 52]. Definition s_double := [100; 111; 117; 98; 108; 101].
-Definition s_string := [115; 116; 114; 105; 110; 103]. Definition s_binary := [98; 105; 110; 97; 114; 121].
-Definition s_list := [108; 105; 115; 116]. Definition s_set := [115; 101; 116]. Definition s_map := [109; 97; 112].
-Definition s_vendor := [118; 101; 110; 100; 111; 114].
-Definition base_types : list bytes := [s_bool; s_byte; s_i8; s_i16; s_i32; s_i64; s_double; s_string; s_binary].
-
-(** a parsed file with its resolved includes *)
-Inductive ftree := FTree (name : bytes) (f : frugal) (incs : list (bytes * ftree)).
-Definition ft_frugal (t : ftree) : frugal := match t with FTree _ f _ => f end.
-
-Fixpoint inc_get (incs : list (bytes * ftree)) (k : bytes) : option ftree :=
-  match incs with
-  | [] => None
-  | (k', t) :: r => if beqb k' k then Some t else inc_get r k
-  end.
-
-Definition type_names (f : frugal) : list bytes :=
-  map s_name (fr_structs f) ++ map s_name (fr_unions f) ++ map s_name (fr_exceptions f)
-  ++ map en_name (fr_enums f) ++ map td_name (fr_typedefs f).
-
-(** split at the first '.' *)
-Definition include_part (n : bytes) : bytes := if contains_byte 46 n then take_until_eq 46 n else [].
-Definition param_part (n : bytes) : bytes :=
-  if contains_byte 46 n then skipn (S (length (take_until_eq 46 n))) n else n.
-
-(** isValidType: Some b (a bare container name, whose element type is nil, is invalid since the
-    repair of the nil dereference; the option is kept so that a reintroduced panic is expressible) *)
-Fixpoint valid_type (f : frugal) (incs : list (bytes * ftree)) (t : ptype) : option bool :=
-  match t with
-  | PType n k v _ =>
-    if existsb (beqb n) base_types then Some true
-    else if beqb n s_list || beqb n s_set then
-      match v with Some vt => valid_type f incs vt | None => Some false end
-    else if beqb n s_map then
-      match k, v with
-      | Some kt, Some vt =>
-        match valid_type f incs kt with
-        | Some true => valid_type f incs vt
-        | other => other
-        end
-      | _, _ => Some false
-      end
-    else
-      let inc := include_part n in
-      let pn := param_part n in
-      match (if beqb inc [] then Some f else option_map ft_frugal (inc_get incs inc)) with
-      | None => Some false
-      | Some fr => Some (existsb (beqb pn) (type_names fr))
-      end
-  end.
-
-Inductive vres := VOk | VErr | VPanic.
-Definition vand (a : vres) (b : unit -> vres) : vres := match a with VOk => b tt | other => other end.
-Definition of_bool (b : bool) : vres := if b then VOk else VErr.
-Definition of_type (o : option bool) : vres := match o with Some true => VOk | Some false => VErr | None => VPanic end.
-Fixpoint vall {X} (p : X -> vres) (l : list X) : vres :=
-  match l with [] => VOk | x :: t => vand (p x) (fun _ => vall p t) end.
-
-Definition has_ann (name : bytes) (a : annotations) : bool := existsb (fun p => beqb (fst p) name) a.
-
-Definition has_enum_value (f : frugal) (en vn : bytes) : bool :=
-  existsb (fun e => beqb en (en_name e) && existsb (fun v => beqb vn (ev_name v)) (en_values e)) (fr_enums f).
-
-Definition validate_constant (f : frugal) (incs : list (bytes * ftree)) (c : constant) : vres :=
-  vand (of_type (valid_type f incs (c_type c))) (fun _ =>
-    match c_value c with
-    | CIdent name =>
-      let pieces := split_on 46 name [] in
-      match pieces with
-      | [_] => of_bool (existsb (fun x => beqb name (c_name x)) (fr_constants f))
-      | [inc; pn] =>
-        (* a value of an enum of this file, else a constant of this file / an include *)
-        if has_enum_value f inc pn then VOk else
-        match (if beqb inc [] then Some f else option_map ft_frugal (inc_get incs inc)) with
-        | None => VErr
-        | Some fr => of_bool (existsb (fun x => beqb pn (c_name x)) (fr_constants fr))
-        end
-      | [inc; en; vn] =>
-        (* a value of an enum of an include *)
-        match option_map ft_frugal (inc_get incs inc) with
-        | Some fr => of_bool (has_enum_value fr en vn)
-        | None => VErr
-        end
-      | _ => VErr
-      end
-    | _ => VOk
-    end).
-
-(** validateTypedefs' circularity check: repeatedly mark the typedefs defined in terms of marked
-    typedefs only (typedefIndex: the last declaration of a name wins) *)
-Fixpoint td_lookup (tds : list typedef) (n : bytes) : option typedef :=
-  match tds with
-  | [] => None
-  | t :: r => match td_lookup r n with
-              | Some x => Some x
-              | None => if beqb (td_name t) n then Some t else None
-              end
-  end.
-Fixpoint tds_resolved (f : frugal) (resolved : list bytes) (t : ptype) : bool :=
-  match t with
-  | PType n k v _ =>
-    if (match td_lookup (fr_typedefs f) n with Some _ => true | None => false end)
-       && negb (existsb (beqb n) resolved)
-    then false
-    else (match k with Some kt => tds_resolved f resolved kt | None => true end)
-         && (match v with Some vt => tds_resolved f resolved vt | None => true end)
-  end.
-Definition mark_pass (f : frugal) (resolved : list bytes) : list bytes :=
-  fold_left (fun res td =>
-               if existsb (beqb (td_name td)) res then res else
-               match td_lookup (fr_typedefs f) (td_name td) with
-               | Some t0 => if tds_resolved f res (td_type t0) then td_name td :: res else res
-               | None => res
-               end) (fr_typedefs f) resolved.
-Definition typedefs_acyclic (f : frugal) : bool :=
-  let resolved := Nat.iter (S (length (fr_typedefs f))) (mark_pass f) [] in
-  forallb (fun td => existsb (beqb (td_name td)) resolved) (fr_typedefs f).
-
-Definition validate_struct (f : frugal) (incs : list (bytes * ftree)) (s : struct) : vres :=
-  (* field by field: type first, then the duplicate-id check against the earlier fields *)
-  (fix go (fs : list field) (seen : list Z) : vres :=
-     match fs with
-     | [] => VOk
-     | x :: t =>
-       vand (of_type (valid_type f incs (f_type x))) (fun _ =>
-         if existsb (Z.eqb (f_id x)) seen then VErr else go t (f_id x :: seen))
-     end) (s_fields s) [].
-
-Definition validate_service (f : frugal) (incs : list (bytes * ftree)) (s : service) : vres :=
-  vand (vall (fun m =>
-          vand (match m_return m with Some t => of_type (valid_type f incs t) | None => VOk end) (fun _ =>
-          vand (vall (fun a => of_type (valid_type f incs (f_type a))) (m_args m)) (fun _ =>
-                vall (fun a => of_type (valid_type f incs (f_type a))) (m_throws m))))
-          (sv_methods s)) (fun _ =>
-        vall (fun m =>
-          vand (of_bool (negb (m_oneway m && (match m_throws m with [] => false | _ => true end)))) (fun _ =>
-          vand (of_bool (negb (m_oneway m && (match m_return m with Some _ => true | None => false end)))) (fun _ =>
-                of_bool (negb (has_dup_z (map f_id (m_args m)))))))
-          (sv_methods s)).
-
-(** validateScopes / validateScopeTypes: a prefix names each variable once (the variables become the
-    parameters of the generated publish / subscribe methods; C11-K12, repaired), then the
-    operation types.  [validate_scopes_pinned] is the code before the repair. *)
-Definition validate_scope (f : frugal) (incs : list (bytes * ftree)) (s : scope) : vres :=
-  vand (of_bool (negb (has_dup (p_vars (sc_prefix s))))) (fun _ =>
-        vall (fun o => of_type (valid_type f incs (o_type o))) (sc_ops s)).
-Definition validate_scopes (f : frugal) (incs : list (bytes * ftree)) : vres :=
-  vall (validate_scope f incs) (fr_scopes f).
-Definition validate_scopes_pinned (f : frugal) (incs : list (bytes * ftree)) : vres :=
-  vall (fun s => vall (fun o => of_type (valid_type f incs (o_type o))) (sc_ops s)) (fr_scopes f).
 
 Definition validate (f : frugal) (incs : list (bytes * ftree)) : vres :=
-  vand (of_bool (negb (has_dup (map (fun s => lower_first (sv_name s)) (fr_services f))))) (fun _ =>
-  vand (vall (fun s => of_bool (negb (has_dup (map (fun m => lower_first (m_name m)) (sv_methods s))))) (fr_services f)) (fun _ =>
-  vand (of_bool (negb (has_dup (map (fun s => lower_first (sc_name s)) (fr_scopes f))))) (fun _ =>
-  vand (vall (fun s => of_bool (negb (has_dup (map (fun o => lower_first (o_name o)) (sc_ops s))))) (fr_scopes f)) (fun _ =>
-  vand (vall (fun n => of_bool (negb (beqb (n_scope n) [42] && has_ann s_vendor (n_anns n)))) (fr_namespaces f)) (fun _ =>
-  vand (of_bool (negb (has_dup (map i_name (fr_includes f))))) (fun _ =>
-  vand (vall (validate_constant f incs) (fr_constants f)) (fun _ =>
-  vand (vall (fun t => of_type (valid_type f incs (td_type t))) (fr_typedefs f)) (fun _ =>
-  vand (of_bool (typedefs_acyclic f)) (fun _ =>
-  vand (vall (validate_struct f incs) (fr_structs f)) (fun _ =>
-  vand (vall (validate_struct f incs) (fr_unions f)) (fun _ =>
-  vand (vall (validate_struct f incs) (fr_exceptions f)) (fun _ =>
-  vand (vall (validate_service f incs) (fr_services f)) (fun _ =>
-        validate_scopes f incs))))))))))))).
-
-(** ** sort.Sort(scopesByName): names are pairwise distinct after validate, so any sort agrees *)
-Fixpoint bytes_ltb (a b : bytes) : bool :=
-  match a, b with
-  | [], [] => false
-  | [], _ :: _ => true
-  | _ :: _, [] => false
-  | x :: a', y :: b' => if x <? y then true else if y <? x then false else bytes_ltb a' b'
-  end.
-Fixpoint insert_scope (s : scope) (l : list scope) : list scope :=
-  match l with
-  | [] => [s]
-  | q :: l' => if bytes_ltb (sc_name q) (sc_name s) then q :: insert_scope s l' else s :: l
-  end.
-Definition sort_scopes (l : list scope) : list scope := fold_right insert_scope [] l.
-
-Definition with_scopes (f : frugal) (sc : list scope) : frugal :=
-  mkfrugal (fr_includes f) (fr_namespaces f) (fr_typedefs f) (fr_constants f) (fr_enums f)
-           (fr_structs f) (fr_exceptions f) (fr_unions f) (fr_services f) sc.
+  vres_of (CompilerValidate.cvalidate (CompilerValidate.validate_fuel f incs) f incs).
 
 (** ** parseFrugal *)
-Inductive fres := FOk (t : ftree) | FErr | FPanic.
-
-Definition dot_thrift : bytes := [46; 116; 104; 114; 105; 102; 116].
-Definition dot_frugal : bytes := [46; 102; 114; 117; 103; 97; 108].
-
-(** insertion into the ParsedIncludes map (a later include with the same key replaces the earlier) *)
-Fixpoint inc_put (incs : list (bytes * ftree)) (k : bytes) (t : ftree) : list (bytes * ftree) :=
-  match incs with
-  | [] => [(k, t)]
-  | (k', t') :: r => if beqb k' k then (k, t) :: r else (k', t') :: inc_put r k t
+Inductive fres := FOk (t : ftree) | FErr | FPanic | FFuel.
+Definition fres_of (r : CompilerValidate.pres) : fres :=
+  match r with
+  | CompilerValidate.POk t => FOk t
+  | CompilerValidate.PErr _ => FErr
+  | CompilerValidate.PPanic => FPanic
+  | CompilerValidate.PFuel => FFuel
   end.
 
-Fixpoint parse_frugal (fuel : nat) (fs : fsys) (p : path) (visited : list bytes) : fres :=
-  match fuel with
-  | O => FErr
-  | S fuel' =>
-    match fs_get fs p with
-    | None => FErr                                   (* os.Open fails *)
-    | Some content =>
-      match split_on 46 (last p []) [] with
-      | [name; _] =>                                (* getName: exactly one '.' in the base name *)
-        if existsb (beqb name) visited then FErr    (* circular include *)
-        else
-          match parse_idl content with
-          | POk f =>
-            let dir := removelast p in
-            let fix includes (l : list include) (acc : list (bytes * ftree)) : fres + list (bytes * ftree) :=
-                match l with
-                | [] => inr acc
-                | i :: t =>
-                  let v := i_value i in
-                  if negb (has_suffix dot_thrift v || has_suffix dot_frugal v) then inl FErr
-                  else
-                    match parse_frugal fuel' fs (clean (dir ++ split_on 47 v [])) (visited ++ [name]) with
-                    | FOk sub =>
-                      let key := filepath_base (firstn (length v - 7) v) in
-                      includes t (inc_put acc key sub)
-                    | FErr => inl FErr
-                    | FPanic => inl FPanic
-                    end
-                end in
-            match includes (fr_includes f) [] with
-            | inl e => e
-            | inr incs =>
-              match validate f incs with
-              | VOk => FOk (FTree name (with_scopes f (sort_scopes (fr_scopes f))) incs)
-              | VErr => FErr
-              | VPanic => FPanic
-              end
-            end
-          | _ => FErr
-          end
-      | _ => FErr
-      end
+(** what the PEG parser makes of one text (the text of a syntax error is not part of this view) *)
+Definition parsed_entry (content : bytes) : option CompilerValidate.fentry :=
+  match parse_idl content with
+  | POk f => Some (CompilerValidate.FParsed f)
+  | PErr _ => Some (CompilerValidate.FSyntax [])
+  | PWeird | PNoFuel => None
+  end.
+Fixpoint parsed_fs (fs : fsys) : option CompilerValidate.pfs :=
+  match fs with
+  | [] => Some []
+  | (p, c) :: t =>
+    match parsed_entry c, parsed_fs t with
+    | Some e, Some t' => Some ((p, e) :: t')
+    | _, _ => None
     end
   end.
 
-Definition parse_program (fs : fsys) (root : path) : fres := parse_frugal (S (length fs)) fs root [].
+(** the names the grammar guarantees (Identifier is not empty; a type name does not start with a
+    dot): the hypothesis of the totality theorems, decidable, checked by the judge on every program *)
+Definition nonempty (b : bytes) : bool := match b with [] => false | _ :: _ => true end.
+Definition file_names_okb (f : frugal) : bool :=
+  forallb (fun s => nonempty (sv_name s) && forallb (fun m => nonempty (m_name m)) (sv_methods s)) (fr_services f)
+  && forallb (fun s => nonempty (sc_name s) && forallb (fun o => nonempty (o_name o)) (sc_ops s)) (fr_scopes f)
+  && forallb (fun td => CompilerTotal.name_ok (CompilerValidate.type_name (td_type td))) (fr_typedefs f).
+Definition pfs_names_okb (pfs : CompilerValidate.pfs) : bool :=
+  forallb (fun e => match snd e with
+                    | CompilerValidate.FParsed f => file_names_okb f
+                    | CompilerValidate.FSyntax _ => true
+                    end) pfs.
+
+(** one pass: whether every parsed file has grammatical names, and the answer with its diagnostic
+    (the judge reads the class of the error off it for its branch tag); None = the PEG interpreter
+    gave no verdict on some text *)
+Definition parse_program_checked (fs : fsys) (root : path) : option (bool * CompilerValidate.pres) :=
+  match parsed_fs fs with
+  | Some pfs => Some (pfs_names_okb pfs, CompilerValidate.cparse_program pfs root)
+  | None => None
+  end.
+
+Definition parse_program (fs : fsys) (root : path) : fres :=
+  match parse_program_checked fs root with
+  | Some (_, r) => fres_of r
+  | None => FFuel
+  end.
